@@ -1255,3 +1255,7 @@ mut("c18-lock-leak-root", ["C18"], [(N, '''	sp.mtxSubscribers.Lock()
 	defer sp.mtxSubscribers.Unlock()
 	sp.recvSubscribers[subscription] = struct{}{}''', '''	sp.mtxSubscribers.Lock()
 	sp.recvSubscribers[subscription] = struct{}{}''')], ["C18.L1"])
+
+mut("c05-fetch-without-mutex", ["C05"], [(Q, '''	s.mtxCFilter.Lock()
+	defer s.mtxCFilter.Unlock()
+''', '')], ["C05.P1"])
